@@ -1,7 +1,7 @@
 (* C30 — evaluation: the model escaper vs ManifestCustomCharEscaper, and the model lexer reading it back. *)
 From Coq Require Import List NArith Bool.
 Import ListNotations.
-Require Import RV.Model.C30_Text RV.Corr.C31_run.
+Require Import RV.Model.C30_Text RV.Model.C31_Lexer RV.Corr.C31_run.
 Open Scope N_scope.
 
 (* a string as (code point, should-escape flag reported by the implementation) *)
